@@ -130,7 +130,9 @@ def run_check(cid: str, tier: str, seed: int, jobs: int | None = None) -> int:
         capped += 1 if s.get("capped") else 0
         max_dev = max(max_dev, s.get("max_dev", 0))
         for k, v in s.get("extra", {}).items():
-            if isinstance(v, (int, float)):
+            if k.startswith("max_") and isinstance(v, (int, float)):
+                extra[k] = max(extra.get(k, 0), v)
+            elif isinstance(v, (int, float)):
                 extra[k] = extra.get(k, 0) + v
             else:
                 extra.setdefault(k, v)
